@@ -165,6 +165,9 @@ def transform_mga94_to_mga2020(zone, east, north, ell_ht=False, vcv=None):
     else:
         ell_ht_in = ell_ht
     if vcv is not None:
+        if vcv.shape == (3, 1):
+            # a column of variances is an uncorrelated (diagonal) covariance
+            vcv = np.diagflat(vcv)
         vcv = vcv_local2cart(vcv, lat, lon)
     x94, y94, z94 = llh2xyz(lat, lon, ell_ht_in)
     x20, y20, z20, vcv20 = conform7(x94, y94, z94, gda94_to_gda2020, vcv)
@@ -194,6 +197,9 @@ def transform_mga2020_to_mga94(zone, east, north, ell_ht=False, vcv=None):
     else:
         ell_ht_in = ell_ht
     if vcv is not None:
+        if vcv.shape == (3, 1):
+            # a column of variances is an uncorrelated (diagonal) covariance
+            vcv = np.diagflat(vcv)
         vcv = vcv_local2cart(vcv, lat, lon)
     x94, y94, z94 = llh2xyz(lat, lon, ell_ht_in)
     x20, y20, z20, vcv94 = conform7(x94, y94, z94, -gda94_to_gda2020, vcv=vcv)
